@@ -111,6 +111,9 @@ def behaviour_for(env, kind, answers):
 
 
 def execute(env, tree, tokens, kind, ansi_streams):
+    """ansi_streams: bool (both streams) or (stdout claims ANSI, stderr claims ANSI)"""
+    if not isinstance(ansi_streams, (tuple, list)):
+        ansi_streams = (ansi_streams, ansi_streams)
     log = T.HandlerLog()
     answers = []
     log.behaviour = behaviour_for(env, kind, answers)
@@ -127,7 +130,7 @@ def execute(env, tree, tokens, kind, ansi_streams):
         cfg.set_io_factory(tap)
 
     app, cfg = T.build_app(tree, env.api, log, default_config=True, name="my-app", version="1.2.3", tweak=tweak)
-    out, err = env.RecStream(ansi_streams), env.RecStream(ansi_streams)
+    out, err = env.RecStream(ansi_streams[0]), env.RecStream(ansi_streams[1])
     inp = env.Script(["y\n", "y\n"])
     try:
         status = app.run(env.ArgvArgs(["prog"] + list(tokens)), inp, out, err)
@@ -144,7 +147,15 @@ def base_lines(tree, rng, limit):
         if n["subs"] or T.accepts_extra(path) is not None:
             continue
         names = [rng.choice([x["name"]] + x["aliases"]) for x in path]
-        out.append((path, names, names + T.positional_fill(path) + ["r1"]))
+        own = []
+        for o in n["opts"]:
+            if rng.random() < 0.6:
+                own += ["--" + o["long"]] if o["mode"] == "flag" else ["--%s=ov" % o["long"]]
+        if own and rng.random() < 0.5:
+            # the command's own options between the path and its arguments
+            out.append((path, names, names + own + T.positional_fill(path) + ["r1"]))
+        else:
+            out.append((path, names, names + T.positional_fill(path) + ["r1"] + own))
     rng.shuffle(out)
     return out[:limit]
 
@@ -191,7 +202,9 @@ def judge_variant(sh, env, tree, path, names, base, switches, tokens, positions,
         if tap["ansi_out"] or tap["ansi_err"]:
             sh.violate("no-ansi", record, "outputs still decorated: %r" % (tap,))
     if "ansi" in names_set and not (tap["ansi_out"] and tap["ansi_err"]):
-        sh.violate("ansi", record, "--ansi given but outputs not decorated: %r" % (tap,))
+        sh.violate("ansi", record, "--ansi given but outputs not decorated (streams claim %r): %r" % (ansi_streams, tap))
+    if not (names_set & {"ansi", "noansi"}) and (tap["ansi_out"], tap["ansi_err"]) != tuple(ansi_streams):
+        sh.violate("ansi", record, "no ANSI switch: decoration %r should follow the streams' claims %r" % ((tap["ansi_out"], tap["ansi_err"]), ansi_streams))
     if "nointer" in names_set:
         if tap["interactive"]:
             sh.violate("no-interaction", record, "I/O still interactive")
@@ -217,11 +230,12 @@ def judge_variant(sh, env, tree, path, names, base, switches, tokens, positions,
             e = SGR.sub("", r["err"]).split("\n")
             if [l for l in o if l] != expected_lines("out", verbosity) or [l for l in e if l] != expected_lines("err", verbosity):
                 sh.violate("verbosity-messages", record, "verbosity %d: out %r err %r" % (verbosity, o, e))
-            decorated = ("ansi" in names_set) or (ansi_streams and "noansi" not in names_set)
-            if decorated and ("\x1b" not in r["out"] or "\x1b" not in r["err"]):
-                sh.violate("ansi", record, "decoration on but styled handler text arrived without SGR: %r" % r["out"][:60])
-            if not decorated and "\x1b" in (r["out"] + r["err"]):
-                sh.violate("no-ansi", record, "undecorated run emitted an escape sequence")
+            for which, text, claims in (("standard", r["out"], ansi_streams[0]), ("error", r["err"], ansi_streams[1])):
+                decorated = ("ansi" in names_set) or (claims and "noansi" not in names_set)
+                if decorated and "\x1b" not in text:
+                    sh.violate("ansi", record, "decoration on but styled handler text arrived without SGR on the %s stream: %r" % (which, text[:60]))
+                if not decorated and "\x1b" in text:
+                    sh.violate("no-ansi", record, "undecorated %s stream received an escape sequence" % which)
         if kind == "ask" and "nointer" not in names_set:
             if r["answers"] != [True] or r["reads"] != 1:
                 sh.violate("interaction", record, "interactive question answered %r after %d read(s)" % (r["answers"], r["reads"]))
@@ -243,7 +257,7 @@ def judge_variant(sh, env, tree, path, names, base, switches, tokens, positions,
                 if SGR.sub("", r["out"]) != "My App version 1.2.3\n":
                     sh.violate("version", record, "version output %r" % r["out"][:80])
             else:
-                decorated = ("ansi" in names_set) or (ansi_streams and "noansi" not in names_set)
+                decorated = ("ansi" in names_set) or (ansi_streams[0] and "noansi" not in names_set)
                 targets = [path] + [path + (s,) for s in path[-1]["subs"] if s["kind"] in ("default", "anon")]
                 pages = []
                 for tp in targets:
@@ -296,7 +310,7 @@ def run_tree(sh, env, tree, rng, tier):
     shape = T.tree_shape(tree)
     for path, names, base in base_lines(tree, rng, 4 if tier == "quick" else 6):
         for kind in ("write", "ask", "raise"):
-            ansi_streams = rng.random() < 0.5
+            ansi_streams = (rng.random() < 0.5, rng.random() < 0.5)
             b, _ = execute(env, tree, base, kind, ansi_streams)
             want_status = 1 if kind == "raise" else 0
             if b["status"] != want_status or len(b["calls"]) != 1:
